@@ -180,6 +180,7 @@ def run_impl(sat, cnf, limit):
 
 
 INPUT_MODIFIED = []
+UNSAT_TRACES = []
 
 
 # ------------------------------------------------------------------ independent oracles
@@ -389,6 +390,11 @@ def classify_formula(f):
     return "+".join(tags) if tags else str(f)
 
 
+def has_twin_args(f):
+    """a binary connective applied to two identical arguments: its Tseitin clauses repeat a literal"""
+    return any(is_connective(t) and not t.is_not() and t.arg1 == t.arg for t in subterms_all(f))
+
+
 def subterms_all(t):
     out = [t]
     if is_connective(t):
@@ -463,7 +469,9 @@ def tseitin_stage(ctx, only=None):
             extra = []
             fx = form_sexp(f, names, extra)
             lines.append(sexp.dumps(["tseitin", fx, sorted(set(extra)), [form_sexp(g, names) for g in order]]))
-            impl_cnfs.append((str(f), [[(names.decode_aux(nm), bv) for nm, bv in cl] for cl in cnf]))
+            lines.append(sexp.dumps(["tseitin-hyps", fx, sorted(set(extra)), [form_sexp(g, names) for g in order]]))
+            impl_cnfs.append((str(f), [[(names.decode_aux(nm), bv) for nm, bv in cl] for cl in cnf],
+                              sorted(sexp.dumps(form_sexp(h, names)) for h in pt.hyps)))
         except Exception as e:  # noqa
             ctx.broken("correspondence:c15:tseitin", "cannot read the subterm numbering of %s: %r" % (f, e))
         f_atoms = sorted(atoms_of(f, set()))
@@ -497,8 +505,19 @@ def tseitin_stage(ctx, only=None):
         ctx.broken("correspondence:c15:driver", "model driver unavailable (tseitin)")
         return
     ndis = 0
-    for (fs, icnf), line in zip(impl_cnfs, out):
+    for (fs, icnf, ihyps), line, hline in zip(impl_cnfs, out[0::2], out[1::2]):
         ctx.count("tseitin:cnf-compared")
+        # the whole statement of the theorem: hypotheses x_i <--> ... and the formula
+        try:
+            mh = sorted(set(sexp.dumps(h) for h in sexp.loads(hline)))
+        except Exception:  # noqa
+            mh = hline
+        ctx.count("tseitin:hyps-compared")
+        if mh != ihyps:
+            ndis += 1
+            if ndis <= 3:
+                ctx.broken("correspondence:c15:tseitin-hyps", "formula=%s impl=%s model=%s" % (fs, ihyps, mh))
+                ctx.coverage["disagreements_checked"] += 1
         try:
             m = canon_clauses([[(n_, b_ == "T") for n_, b_ in cl] for cl in sexp.loads(line)])
         except Exception:  # noqa
@@ -543,6 +562,343 @@ def term_of_repr(x):
     if x[0] == "eq":
         return T.Eq(term_of_repr(x[1]), term_of_repr(x[2]))
     return {"and": T.And, "or": T.Or, "imp": T.Implies, "iff": T.Eq}[x[0]](term_of_repr(x[1]), term_of_repr(x[2]))
+
+
+# ------------------------------------------------------------------ replay by logic.resolution (zChaff / proofrec)
+def clause_term(T, cl, var):
+    lits = [var(n) if b else T.Not(var(n)) for n, b in cl]
+    return T.Or(*lits)
+
+
+def clause_of_prop(T, prop):
+    """literal set of the clause a replayed theorem states (`false` = empty clause)"""
+    if prop == T.false:
+        return []
+    out = []
+    for lit in prop.strip_disj():
+        if lit.is_not():
+            out.append((int(lit.arg.name[1:]), False))
+        else:
+            out.append((int(lit.name[1:]), True))
+    return out
+
+
+def entails(premises, concl):
+    vs = sorted({n for cl in premises + [concl] for n, _ in cl})
+    for bits in itertools.product((False, True), repeat=len(vs)):
+        a = dict(zip(vs, bits))
+        if all(any(a[n] == b for n, b in cl) for cl in premises) and not any(a[n] == b for n, b in concl):
+            return False
+    return True
+
+
+def replay_stage(ctx, sat, unsat_cases):
+    """(c) the replay primitive `logic.resolution`, the replay loop on traces of our solver, and
+    `proofrec.solve_cnf` end to end."""
+    from kernel import term as T, theory, report
+    from kernel.type import BoolType
+    from kernel.proofterm import ProofTerm
+    from logic import basic, logic
+    basic.load_theory('sat')
+    rng = ctx.rng("replay")
+    var = lambda n: T.Var("v%d" % n, BoolType)               # noqa
+    # R1: single steps
+    pairs = [([(0, False), (1, True)], [(1, False), (0, True)]), ([(0, False), (1, False)], [(1, True), (0, True)]),
+             ([(0, True), (1, True), (0, True)], [(0, False)]), ([(0, True)], [(0, False)]), ([(0, True), (1, True)], [(2, True), (1, True)])]
+    for _ in range(ctx.scale(150, 1500)):
+        nv = rng.randint(1, 4)
+        mk = lambda: [(rng.randrange(nv), rng.random() < 0.5) for _ in range(rng.randint(1, 4))]  # noqa
+        pairs.append((mk(), mk()))
+    lines, impl = [], []
+    for c, d in pairs:
+        ctx.case(("resolution", c, d), nontrivial=len(c) + len(d) > 2)
+        try:
+            with time_limit(20):
+                r = logic.resolution(ProofTerm.assume(clause_term(T, c, var)), ProofTerm.assume(clause_term(T, d, var)))
+                res = ("clause", clause_of_prop(T, r.prop))
+        except AssertionError:
+            res = ("none",)
+        except Timeout:
+            raise
+        except BaseException as e:  # noqa  (RecursionError is not an Exception subclass problem, but be safe)
+            res = ("raise", type(e).__name__)
+        ctx.count("replay:step:%s" % res[0])
+        if res[0] == "raise":
+            ctx.violation("replay:crash:%s:two-clashing-pairs" % res[1], "logic.resolution raised %s on the clauses %s, %s" % (res[1], c, d), {"clauses": [c, d], "kind": "resolution-step"})
+            continue
+        if res[0] == "clause" and not entails([c, d], res[1]):
+            ctx.violation("replay:unsound-step:%s" % json.dumps([c, d]), "logic.resolution derived %s from %s, %s, which does not follow" % (res[1], c, d), {"clauses": [c, d], "kind": "resolution-step"})
+            continue
+        lines.append(sexp.dumps(["macro-resolve", s_clause(c), s_clause(d)]))
+        impl.append((c, d, res))
+    out = ctx.lean_driver(EXE, lines) if lines else []
+    ndis = 0
+    for (c, d, res), line in zip(impl, out or []):
+        m = ("none",) if line == "none" else ("clause", sorted(set((int(n), b == "T") for n, b in sexp.loads(line))))
+        r = res if res[0] == "none" else ("clause", sorted(set(res[1])))
+        if m != r:
+            ndis += 1
+            if ndis <= 3:
+                ctx.broken("correspondence:c15:resolution-step", "clauses=%s,%s impl=%s model=%s" % (c, d, r, m))
+    # R2: the replay loop on the traces of solve_cnf (as proofrec.solve_cnf and zChaff.solve run it)
+    lines, impl = [], []
+    for cnf, proofs in unsat_cases:
+        base = [list(dict.fromkeys(cl)) for cl in cnf]
+        if any(len(cl) == 0 for cl in base):
+            continue
+        ctx.count("replay:trace")
+        try:
+            with time_limit(60):
+                pts = [ProofTerm.assume(clause_term(T, cl, var)) for cl in base]
+                for _, steps in proofs:
+                    pt = pts[steps[0]]
+                    for st in steps[1:]:
+                        pt = logic.resolution(pt, pts[st])
+                    pts.append(pt)
+                derived = [clause_of_prop(T, pt.prop) for pt in pts[len(base):]]
+                res = ("ok", derived)
+        except Timeout:
+            raise
+        except BaseException as e:  # noqa
+            res = ("raise", type(e).__name__)
+        if res[0] == "raise" or res[1][-1] != []:
+            ctx.violation("replay:trace-not-replayable:%s" % json.dumps(cnf), "replaying the trace of solve_cnf on %s with logic.resolution gives %s" % (cnf, res),
+                          {"cnf": cnf, "kind": "trace-replay", "result": res})
+            continue
+        lines.append(sexp.dumps(["zreplay", s_cnf(base), [p for _, p in proofs]]))
+        impl.append((cnf, derived))
+    out = ctx.lean_driver(EXE, lines) if lines else []
+    for (cnf, derived), line in zip(impl, out or []):
+        n0 = len(cnf)
+        m = None if line == "none" else [sorted(set((int(n), b == "T") for n, b in cl)) for cl in sexp.loads(line)][n0:]
+        if m != [sorted(set(cl)) for cl in derived]:
+            ndis += 1
+            if ndis <= 3:
+                ctx.broken("correspondence:c15:replay", "cnf=%s impl=%s model=%s" % (cnf, derived, m))
+    # R3: proofrec.solve_cnf end to end: encode(~F), solve_cnf, replay, discharge the definitions
+    try:
+        from prover import proofrec
+    except Exception as e:  # noqa
+        ctx.count("replay:proofrec-not-importable")
+        return
+    plain, clash, near, opaque = make_atoms(T)
+    for i in range(ctx.scale(18, 120)):
+        pool = plain if rng.random() < 0.6 else plain[:2] + clash[:3]
+        if rng.random() < 0.6:
+            F = T.Not(gen_unsat_formula(rng, pool, T, 0.1 if rng.random() < 0.3 else 0.0))
+        else:
+            F = gen_formula(rng, rng.randint(1, 2), pool, T)
+        atoms = sorted(atoms_of(F, set()))
+        taut = all(eval_form(F, dict(zip(atoms, bits))) for bits in itertools.product((False, True), repeat=len(atoms)))
+        ctx.case(("proofrec", str(F)), nontrivial=True)
+        rp = {"formula": str(F), "term": repr_term(F), "kind": "proofrec"}
+        try:
+            with time_limit(120):
+                pt = proofrec.solve_cnf(F)
+                rpt = report.ProofReport()
+                th = theory.check_proof(pt.export(), rpt, check_level=1)
+            ok = (pt.prop == F and len(pt.hyps) == 0 and th == pt.th and len(rpt.gaps) == 0)
+            res = "proved" if ok else "bad-theorem"
+        except AssertionError:
+            res = "not-provable"
+        except Timeout:
+            raise
+        except BaseException as e:  # noqa
+            res = "raise:" + type(e).__name__
+        ctx.count("replay:proofrec:%s:%s" % ("tautology" if taut else "non-tautology", res))
+        if (taut and res != "proved") or (not taut and res != "not-provable"):
+            cls = "repeated-literal-clause" if has_twin_args(F) else classify_formula(F)
+            ctx.violation("proofrec:%s:%s" % (res, cls), "proofrec.solve_cnf on the %s %s: %s" % ("tautology" if taut else "non-tautology", F, res), rp)
+
+
+def nolearn_stage(ctx, sat, cases):
+    """(a) tie of `noLearnRun` (hypothesis of solve_terminates_partial): a real run learns no non-empty clause iff its
+    debug output shows no conflict analysis, or exactly one that ends the run with 'unsatisfiable'.  Uses the debug
+    messages of solve_cnf; when they are gone the stream is skipped."""
+    import contextlib
+    import io
+    lines, impl = [], []
+    seen_marker = False
+    for cnf in cases:
+        pcnf = [[(name_of(n), b) for (n, b) in cl] for cl in cnf]
+        variables = set()
+        for clause in pcnf:
+            for name, _ in clause:
+                variables.add(name)
+        var_order = [int(v[1:]) for v in variables]
+        rec = []
+        orig = getattr(sat, "resolution", None)
+        if not callable(orig):
+            ctx.count("nolearn:stream-unavailable")
+            return
+
+        def wrapped(c1, c2, name):
+            r = orig(c1, c2, name)
+            rec.append([(int(n[1:]), b) for (n, b) in r])
+            return r
+        sat.resolution = wrapped
+        buf = io.StringIO()
+        try:
+            with time_limit(10), contextlib.redirect_stdout(buf):
+                res = sat.solve_cnf(pcnf, debug=True)
+        except Timeout:
+            continue
+        except BaseException:  # noqa
+            continue
+        finally:
+            sat.resolution = orig
+        text = buf.getvalue()
+        nconf = sum(1 for ln in text.splitlines() if ln.startswith("Analyze conflict"))
+        seen_marker = seen_marker or nconf > 0
+        real = nconf == 0 or (nconf == 1 and res[0] == "unsatisfiable")
+        lines.append(sexp.dumps(["nolearn", FUEL, s_cnf(cnf), var_order, s_cnf(rec)]))
+        impl.append((cnf, real, nconf, len({n for cl in cnf for n, _ in cl})))
+    out = ctx.lean_driver(EXE, lines) if lines else []
+    if out is None:
+        return
+    model = [o == "T" for o in out]
+    if not seen_marker and any(not m for m in model):
+        ctx.count("nolearn:stream-unavailable(no debug messages)")
+        return
+    ndis = 0
+    for (cnf, real, nconf, nv), m in zip(impl, model):
+        ctx.count("nolearn:%s" % ("no-learning" if real else "learning"))
+        if m != real:
+            ndis += 1
+            if ndis <= 3:
+                ctx.broken("correspondence:c15:nolearn", "cnf=%s impl: %d conflict analyses, model noLearnRun=%s" % (cnf, nconf, m))
+
+
+def make_zchaff_trace(cnf, proofs):
+    """A zChaff `resolve_trace` for an unsatisfiable CNF (variables = zChaff indices) from a trace of solve_cnf:
+    one CL line per learned clause except the final empty one, then the level-0 implications (VAR lines, in propagation
+    order) and the conflicting clause (CONF line).  Returns (text, learned clauses)."""
+    clauses = [list(dict.fromkeys(c)) for c in cnf]
+    n0 = len(clauses)
+    lines = []
+    for cid, steps in proofs[:-1]:
+        cur = list(clauses[steps[0]])
+        for st in steps[1:]:
+            d = clauses[st]
+            piv = [l for l in cur if (l[0], not l[1]) in d][0][0]
+            cur = list(dict.fromkeys([l for l in cur if l[0] != piv] + [l for l in d if l[0] != piv]))
+        lines.append("CL: %d <= %s" % (cid, " ".join(str(x) for x in steps)))
+        clauses.append(cur)
+    code = lambda n, b: str(2 * n + (0 if b else 1))         # noqa
+    asg = {}
+    while True:
+        for cid, cl in enumerate(clauses):
+            if any(asg.get(n) == b for n, b in cl):
+                continue
+            un = [(n, b) for n, b in cl if n not in asg]
+            if len(un) == 0:
+                lines.append("CONF: %d == %s" % (cid, " ".join(code(n, b) for n, b in cl)))
+                return "\n".join(lines) + "\n", clauses[n0:]
+            if len(un) == 1:
+                n, b = un[0]
+                asg[n] = b
+                lines.append("VAR: %d L: 0 V: %d A: %d Lits: %s" % (n, 1 if b else 0, cid, " ".join(code(m, bb) for m, bb in cl)))
+                break
+        else:
+            return None, clauses[n0:]
+
+
+def zchaff_stage(ctx, sat):
+    """(c) the real `zChaff.solve` (trace parsing, replay with logic.resolution, VAR/CONF sections, discharge) on traces
+    generated from our solver; the zChaff binary is replaced by a stub that reports UNSAT."""
+    from kernel import term as T, theory, report
+    from logic import basic
+    basic.load_theory('sat')
+    try:
+        import importlib
+        zchaff = importlib.import_module("sat.zchaff")
+    except Exception:  # noqa
+        ctx.count("zchaff:module-not-importable")
+        return
+    rng = ctx.rng("zchaff")
+    plain, clash, near, opaque = make_atoms(T)
+
+    class FakeProcess:
+        def __init__(self, *a, **k):
+            pass
+
+        def communicate(self):
+            return (b"c stub\nRESULT:\tUNSAT\r\n", b"")
+
+    def run_one(F):
+        z = zchaff.zChaff(T.Not(F))
+        zc = [[(abs(l), l > 0) for l in cl] for cl in z.cnf_list]
+        res = sat.solve_cnf([[("y%d" % n, b) for n, b in cl] for cl in zc])
+        if res[0] != "unsatisfiable":
+            return ("not-unsat",), None
+        proofs = sorted((int(k), [int(x) for x in v]) for k, v in res[1].items())
+        trace, learned = make_zchaff_trace(zc, proofs)
+        if trace is None:
+            return ("no-level0-conflict",), None
+        with open(".\\resolve_trace", "w") as fh:
+            fh.write(trace)
+        n0 = len(zc)
+        pt = z.solve()
+        rpt = report.ProofReport()
+        th = theory.check_proof(pt.export(), rpt, check_level=1)
+        good = pt.prop == F and len(pt.hyps) == 0 and th == pt.th and len(rpt.gaps) == 0
+        replayed = []
+        for k in range(n0, n0 + len(proofs) - 1):
+            prop = z.clause_pt[k].prop
+            replayed.append(sorted(set((z.var_index[l.arg if l.is_not() else l], not l.is_not()) for l in ([] if prop == T.false else prop.strip_disj()))))
+        return ("proved" if good else "bad-theorem",), (zc, proofs, replayed)
+
+    old_cwd, old_popen = os.getcwd(), zchaff.subprocess.Popen
+    work = os.path.join(ctx.scratch, "zchaff")
+    os.makedirs(os.path.join(work, "sat"), exist_ok=True)
+    os.chdir(work)
+    zchaff.subprocess.Popen = FakeProcess
+    lines, impl = [], []
+    try:
+        # is the stub still wired the way solve() expects (paths, attributes)?  if not: nothing to tie, not an alarm
+        try:
+            with time_limit(120):
+                probe, _ = run_one(T.Or(plain[0], T.Not(plain[0])))
+        except Timeout:
+            raise
+        except BaseException as e:  # noqa
+            probe = ("raise", type(e).__name__)
+        if probe != ("proved",):
+            ctx.count("zchaff:stream-unavailable:%s" % "/".join(str(x) for x in probe))
+            return
+        for i in range(ctx.scale(12, 80)):
+            pool = plain if rng.random() < 0.7 else plain[:2] + clash[:2]
+            F = T.Not(gen_unsat_formula(rng, pool, T, 0.1 if rng.random() < 0.3 else 0.0))
+            ctx.case(("zchaff", str(F)), nontrivial=True)
+            try:
+                with time_limit(180):
+                    res, info = run_one(F)
+            except Timeout:
+                raise
+            except BaseException as e:  # noqa
+                res, info = ("raise", type(e).__name__), None
+            ctx.count("zchaff:%s" % "/".join(str(x) for x in res))
+            if res == ("bad-theorem",):
+                ctx.violation("zchaff:bad-theorem:%s" % classify_formula(F), "zChaff.solve returned a theorem that is not |- %s or does not check" % F,
+                              {"formula": str(F), "term": repr_term(F), "kind": "zchaff"})
+            elif res[0] == "raise":
+                ctx.broken("correspondence:c15:zchaff-replay", "zChaff.solve raised %s on the tautology %s with a generated trace" % (res[1], F))
+            elif info is not None:
+                zc, proofs, replayed = info
+                lines.append(sexp.dumps(["zreplay", s_cnf([list(dict.fromkeys(c)) for c in zc]), [p for _, p in proofs[:-1]]]))
+                impl.append((str(F), len(zc), replayed))
+    finally:
+        os.chdir(old_cwd)
+        zchaff.subprocess.Popen = old_popen
+    out = ctx.lean_driver(EXE, lines) if lines else []
+    ndis = 0
+    for (fs, n0, replayed), line in zip(impl, out or []):
+        m = None if line == "none" else [sorted(set((int(n), b == "T") for n, b in cl)) for cl in sexp.loads(line)][n0:]
+        ctx.count("zchaff:replayed-clauses-compared")
+        if m != replayed:
+            ndis += 1
+            if ndis <= 3:
+                ctx.broken("correspondence:c15:zchaff-replay", "formula=%s impl=%s model=%s" % (fs, replayed, m))
 
 
 # ------------------------------------------------------------------ Gen.lean (translated encode_* rules)
@@ -798,6 +1154,8 @@ def check_cases(ctx, sat, cases, label, limit=5):
             continue
         if res[0] == "unsat":
             ctx.count("unsat-certified-by-lean-checker")
+            if len(UNSAT_TRACES) < 4000:
+                UNSAT_TRACES.append((cnf, res[1]))
         # --- correspondence with the model
         if out is not None:
             m = parse_model(out[idx])
@@ -841,14 +1199,17 @@ def run(ctx):
             ctx.log("Gen.lean regenerated (changed)")
     except Exception as e:  # noqa
         ctx.broken("translate:c15:encode_rules", "untranslatable: %r" % e)
-    proofs_ok = ctx.lean_props(["Holpy.C15.Props"], exes=[EXE])
+    proofs_ok = ctx.lean_props(["Holpy.C15.Props", "Holpy.C15.Props2"], exes=[EXE])
     if ctx.tier == "thorough" and proofs_ok:
-        ctx.lean_check_modules(["Holpy.C15.Props"])
+        ctx.lean_check_modules(["Holpy.C15.Props", "Holpy.C15.Props2"])
     ctx.coverage["trusted_base"] += [
         "correspondence harness harness/props/c15.py (generators, recorded set orders)",
         "translator of library/sat.json encode_* statements to Bool formulas",
         "Python set/dict semantics; tseitin.encode's theorem is judged by the real checker + brute force; its CNF is compared with the "
-        "model's clause set (subterm numbering taken from tseitin.logic_subterms), the proof-term construction itself is not modelled"]
+        "model's clause set and its hypotheses with the model's (subterm numbering taken from tseitin.logic_subterms), the proof-term "
+        "construction itself is not modelled",
+        "zChaff binary replaced by a stub reporting UNSAT; traces in zChaff's format generated by the harness from solve_cnf's own traces",
+        "debug messages of solve_cnf ('Analyze conflict ...') as the observation of learning for the noLearnRun stream"]
     ctx.assumptions += ["the model takes Python's set iteration orders as oracle inputs; theorems hold for every order",
                         "termination of solve_cnf is not proved (fuel); non-termination is searched for with time limits"]
     # 2+3. correspondence and oracle
@@ -884,6 +1245,13 @@ def run(ctx):
         ctx.broken("correspondence:c15:driver", "model driver unavailable")
     # 4. tseitin
     tseitin_stage(ctx)
+    # 5. replay of traces by logic.resolution, proofrec.solve_cnf
+    k = ctx.scale(120, 1500)
+    step = max(1, len(UNSAT_TRACES) // k)
+    replay_stage(ctx, sat, UNSAT_TRACES[::step][:k])
+    del UNSAT_TRACES[:]
+    zchaff_stage(ctx, sat)
+    nolearn_stage(ctx, sat, cases[:ctx.scale(400, 4000)])
 
 
 def load_corpus(ctx):
@@ -909,22 +1277,37 @@ def replay(ctx, rp):
 
 
 MANIFEST = {
-    "text": "Lean theorems about an executable model of solve_cnf for every CNF, fuel and set-iteration order (sat_sound, unsat_sound, "
-            "trace_valid, proofs_valid, verdict_correct, no_crash, unit_propagate_fuel_suffices), a verified certificate checker "
-            "(checkTrace_sound, checkProofs_sound) that is run on every 'unsatisfiable' answer of the real solver, and for a model of "
-            "tseitin.encode with atoms and auxiliary variables in one name space, the rewriting passes and the fresh-name choice: "
-            "tseitin_equisat, tseitin_succeeds, tseitin_names_fresh (and tseitin_name_clash_counterexample for the naming before the fix); "
-            "its clause groups are the encode_* rules regenerated from library/sat.json on each run. Models tied to prover/sat.py and "
-            "prover/tseitin.py by differential runs on generated inputs; verdicts, assignments and traces of the real solver judged by brute "
-            "force and an independent trace replay. Termination is not proved (fuel in the model; searched for with time limits on the implementation).",
-    "note": "Trusted: Lean kernel, propext/Classical.choice/Quot.sound, the harness generators and the recording of Python set orders, the "
-            "sat.json translator. That tseitin.encode's result is a checker-accepted theorem is judged by the real checker on generated formulas "
-            "(not proved); its CNF is compared with the model's. tseitin_succeeds is for subterm orders that pass the model's orderOK check "
-            "(the real order always did); that the model's own default order passes it is only evaluated, not proved. Needs the /repo fixes "
-            "4ab1cad and 2b1f8e8: on a tree without them the check reports the name-clash and true/false findings.",
+    "text": "Lean theorems about executable models, for every input, fuel and set-iteration order. solve_cnf: sat_sound, unsat_sound, "
+            "trace_valid, proofs_valid, verdict_correct, no_crash, unit_propagate_fuel_suffices; a verified certificate checker "
+            "(checkTrace_sound, checkProofs_sound) run on every 'unsatisfiable' answer of the real solver. tseitin.encode (atoms and "
+            "auxiliary variables in one name space, the rewriting passes, the fresh-name choice): tseitin_equisat, tseitin_succeeds, "
+            "tseitin_names_fresh, encode_statement_eq_model (the stated CNF is exactly the rules' clauses plus the top variable), "
+            "encode_sequent_valid (hypotheses entail the CNF), tseitin_name_clash_counterexample for the naming before the fix; clause groups "
+            "are the encode_* rules regenerated from library/sat.json on each run. Replay of resolution traces by logic.resolution as "
+            "zChaff.solve and proofrec.solve_cnf run it: macro_resolve_sound, replay_sound, replay_empty_unsat. Termination: "
+            "solve_terminates_partial only (runs that learn no non-empty clause end within #variables+1 rounds). Every model is tied to the "
+            "real code by differential streams: solve_cnf runs, tseitin.encode's CNF and hypotheses, single logic.resolution steps, traces of "
+            "solve_cnf replayed with the real macro, proofrec.solve_cnf end to end, the real zChaff.solve on generated traces (binary stubbed), "
+            "noLearnRun against the solver's debug output.",
+    "note": "NOT proved: termination of solve_cnf on runs with backjumps and of analyze_conflict's loop (fuel in the model; the measures and "
+            "invariants needed are written at solve_terminates_partial; non-termination is searched for with time limits); that the traces of "
+            "solve_cnf replay with logic.resolution to the empty clause (checked on every generated trace with the real macro, not a theorem); "
+            "that tseitin.encode's proof term is accepted by the checker (judged by the real checker on generated formulas; the construction "
+            "from kernel rules is not modelled: only its statement is); that the model's own default subterm order passes orderOK (evaluated; "
+            "the real order always did). The VAR/CONF sections of zChaff traces and the discharge steps of zChaff.solve / proofrec.solve_cnf "
+            "are exercised on the real code only (theorem returned must be |- F and check), not modelled. Trusted: Lean kernel, "
+            "propext/Classical.choice/Quot.sound, the harness generators and the recording of Python set orders, the sat.json translator. "
+            "Needs the /repo fixes fixes/C15-2..5.patch (without C15-4/5 the check reports the RecursionError of logic.resolution and the "
+            "failure of proofrec.solve_cnf on tautologies with a repeated argument).",
     "design_ref": "DESIGN.md 4/C15",
 }
 FINDINGS = [
+    {"status": "fixed", "key": "replay:crash:RecursionError:two-clashing-pairs", "commit": "fixes/C15-4.patch",
+     "what": "logic.resolution(~a | b, ~b | a) recursed forever: the clauses were swapped and searched again when the positive literal "
+             "was in the second clause"},
+    {"status": "fixed", "key": "proofrec:not-provable:repeated-literal-clause", "commit": "fixes/C15-5.patch",
+     "what": "proofrec.solve_cnf failed on tautologies such as (a & a) --> a: logic.resolution removed only one copy of the resolved "
+             "literal, so the replay of solve_cnf's trace on Tseitin clauses with a repeated literal did not end in false"},
     {"status": "fixed", "key": "nontermination:duplicate-literal-in-clause", "commit": "5b840a5",
      "what": "solve_cnf([[('x', False), ('x', False)]]) did not terminate: a clause repeating a literal is never unit"},
     {"status": "fixed", "key": "tseitin:not-equisat:atom-named-like-auxiliary", "commit": "4ab1cad",
